@@ -39,6 +39,7 @@ var (
 	cLoop    = common.HexToAddress("0x00000000000000000000000000000000000c0003") // infinite loop (out of gas)
 	cSuicide = common.HexToAddress("0x00000000000000000000000000000000000c0004") // SELFDESTRUCT to heir
 	cLogs    = common.HexToAddress("0x00000000000000000000000000000000000c0005") // LOG0..LOG4
+	cCtx     = common.HexToAddress("0x00000000000000000000000000000000000c0006") // stores BLOCKHASH(n-1..n-3), COINBASE, TIMESTAMP, DIFFICULTY, GASLIMIT; LOG1(BLOCKHASH(n-1))
 	heir     = common.HexToAddress("0x00000000000000000000000000000000000d0001")
 	miner1   = common.HexToAddress("0x00000000000000000000000000000000000e0001")
 	miner2   = common.HexToAddress("0x00000000000000000000000000000000000e0002")
@@ -62,6 +63,8 @@ func alloc() core.GenesisAlloc {
 		cLoop:    {Balance: big.NewInt(0), Code: hx("5b600056")},
 		cSuicide: {Balance: big.NewInt(12345), Code: hx("73" + heir.Hex()[2:] + "ff")},
 		cLogs:    {Balance: big.NewInt(0), Code: hx(l)},
+		cCtx: {Balance: big.NewInt(0), Code: hx("6001430340600055" + "6002430340600155" + "6003430340600255" +
+			"41600355" + "42600455" + "44600555" + "45600655" + "6001430340" + "60006000a1" + "00")},
 	}
 }
 
@@ -126,6 +129,23 @@ func build(cfgName string) *world {
 		return len(w.nodes) - 1
 	}
 	A := env.Addrs
+	// ctx: a call that reads the ancestor hashes and the header fields of the block it is mined in. The
+	// builder executes it on a scratch node on which the block's own branch is the canonical chain.
+	ctx := func(g *core.BlockGen, from int, parent int) {
+		var path types.Blocks
+		for v := parent; v >= 0; v = w.nodes[v].parent {
+			path = append(types.Blocks{w.nodes[v].block}, path...)
+		}
+		sbc, err := env.Open(env.NewChainDB(), chainkit.Archive(), eng)
+		if err != nil {
+			panic(err)
+		}
+		defer sbc.Stop()
+		if _, err := sbc.InsertChain(path); err != nil {
+			panic(fmt.Sprintf("builder: scratch node rejects the branch: %v", err))
+		}
+		g.VerifAddTxWithChain(sbc, call(env, g, from, cCtx, 0, 300000, nil))
+	}
 	m1 := add("M1", -1, func(g *core.BlockGen) {
 		g.SetCoinbase(miner1)
 		g.AddTx(env.Transfer0(g, 0, A[2], 1000))
@@ -154,6 +174,7 @@ func build(cfgName string) *world {
 		g.SetCoinbase(miner1)
 		g.AddTx(call(env, g, 0, cSuicide, 3, 100000, nil)) // self-destruct with value
 		g.AddTx(call(env, g, 1, crypto.CreateAddress(A[1], 0), 4, 100000, nil))
+		ctx(g, 2, m4)
 	})
 	m6 := add("M6", m5, func(g *core.BlockGen) { g.SetCoinbase(miner2) }) // empty
 	m7 := add("M7", m6, func(g *core.BlockGen) {
@@ -174,7 +195,11 @@ func build(cfgName string) *world {
 		g.AddTx(env.Transfer0(g, 1, A[0], 31))
 		g.AddTx(call(env, g, 0, cStore, 0, 100000, word(3)))
 	})
-	add("A4", a3, func(g *core.BlockGen) { g.SetCoinbase(miner2); g.AddTx(call(env, g, 0, cSuicide, 0, 100000, nil)) })
+	add("A4", a3, func(g *core.BlockGen) {
+		g.SetCoinbase(miner2)
+		g.AddTx(call(env, g, 0, cSuicide, 0, 100000, nil))
+		ctx(g, 2, a3) // BLOCKHASH(3) is A3 here while M3 may be canonical at that height
+	})
 	// a block whose transaction / receipt lists cross the 0x7f/0x80 index-encoding boundary
 	l3 := add("L3", m2, func(g *core.BlockGen) {
 		g.SetCoinbase(miner2)
@@ -190,11 +215,14 @@ func build(cfgName string) *world {
 		g.OffsetTime(-100)
 		g.AddTx(call(env, g, 1, cLogs, 0, 200000, nil))
 	})
-	add("B6", b5, func(g *core.BlockGen) { g.SetCoinbase(miner1); g.OffsetTime(-100) })
+	add("B6", b5, func(g *core.BlockGen) { g.SetCoinbase(miner1); g.OffsetTime(-100); ctx(g, 2, b5) })
 
 	w.addrs = append(w.addrs, A...)
-	w.addrs = append(w.addrs, cStore, cRevert, cLoop, cSuicide, cLogs, heir, miner1, miner2, common.Address{},
-		crypto.CreateAddress(A[1], 0), crypto.CreateAddress(A[2], 0), crypto.CreateAddress(A[2], 1), crypto.CreateAddress(A[2], 2))
+	w.addrs = append(w.addrs, cStore, cRevert, cLoop, cSuicide, cLogs, cCtx, heir, miner1, miner2, common.Address{},
+		crypto.CreateAddress(A[1], 0))
+	for n := uint64(0); n < 6; n++ {
+		w.addrs = append(w.addrs, crypto.CreateAddress(A[2], n))
+	}
 	for _, a := range w.addrs {
 		for i := 0; i < 16; i++ {
 			w.slots[a] = append(w.slots[a], common.BigToHash(big.NewInt(int64(i))))
